@@ -29,7 +29,7 @@ def seeds(wd, exe, q):
     out.append(("lib_params_only", os.path.join(sd, "lib2", "ref_1.c3d")))
     import random
     k = 0
-    want = 2 if q else 8
+    want = 2 if q else 4
     i = 0
     while k < want and i < 400:
         content, L, meta = gen.gen_case(C.seed() + 99, i)
